@@ -1878,3 +1878,23 @@ class P(Prop):
             for _ in range(10):
                 w = [rng.randrange(1, 9) for _ in case["k"]["w"]]
                 yield dict(case, k={"t": "list", "w": w})
+
+# ---- tie to the source by translation: Kernel.evaluate / Kernel.toSlidingWindow (tools/py2lean.py -> lean/TracklibVerif/Gen/Kernel.lean, regenerated on every run)
+P.tie_modules = getattr(P, "tie_modules", []) + ["TracklibVerif.Tie.C15"]
+P.theorems = P.theorems + [
+    ("TracklibVerif.Tie.C15", "TV.Tie.C15.tie_evaluate", "the Lean translation of the CURRENT source of Kernel.evaluate returns the model's evaluate f support x (never raises), given that abs(x) <= support has the same truth value for Python's abs and the model's absv"),
+    ("TracklibVerif.Tie.C15", "TV.Tie.C15.fabs_le_iff_field", "the hypothesis of tie_evaluate holds in every ordered field (there Python's abs and the model's absv coincide: fabs_eq_absv_field)"),
+    ("TracklibVerif.Tie.C15", "TV.Tie.C15.tie_toSlidingWindow", "the Lean translation of the CURRENT source of Kernel.toSlidingWindow (raise on support < 1, sampling loop with values[i] = evaluate(x) and norm += values[i], normalisation loop values[i] /= norm) equals the model's slidingWindow f support int(support) on every result, errors included (support -> raised, zeroDiv -> ZeroDivisionError), under explicit hypotheses on literals 2.0 / 0.5, int casts, == and abs"),
+    ("TracklibVerif.Tie.C15", "TV.Tie.C15.tie_toSlidingWindow_field", "tie_toSlidingWindow in an ordered field: only the reading of the literals 2.0 and 0.5 remains a hypothesis"),
+    ("TracklibVerif.Tie.C15", "TV.Tie.C15.slidingWindow_error", "the model's slidingWindow raises no error other than support and zeroDiv (the other cases of lift are unreachable)"),
+]
+
+# --- TIE3: translation tie for the loops of Filter.execute (Kernel object, not Dirac) ---
+P.tie_modules = getattr(P, "tie_modules", []) + ["TracklibVerif.Tie.C15Filter"]
+P.theorems = P.theorems + [
+    ("TracklibVerif.Tie.C15Filter", "TV.Tie.C15Filter.tie_execute_kernel", "the Lean translation of the CURRENT source of Filter.execute (Kernel object, not Dirac: even-window raise, double loop with window index i - j + D skipping out-of-track and NaN samples, temp[i] /= norm, the two boundary-copy loops) equals the model's filterWindow on the column encoded by NaN -> none, on ALL arguments, errors included (evenKernel -> raised, zeroDiv -> ZeroDivisionError, index -> IndexError); the model signal is read back entry-wise (some y -> y, none at i -> the input's NaN at i); hypotheses: len(column) = track.size(), int(N / 2) is the integer half of N, the model's == is Python's =="),
+    ("TracklibVerif.Tie.C15Filter", "TV.Tie.C15Filter.innerLoop_tie", "loop lemma (arbitrary body with a pointwise equation): the loop for j in range(N) changes only temp[i] and norm, as the model's inner"),
+    ("TracklibVerif.Tie.C15Filter", "TV.Tie.C15Filter.outerLoop_tie", "loop lemma (arbitrary body): the loop for i in range(track.size()) leaves the cells divided by their norms, or ZeroDivisionError at the FIRST zero norm (divCells; divCells_eq: same as the model's 'any cell has norm == 0')"),
+    ("TracklibVerif.Tie.C15Filter", "TV.Tie.C15Filter.copyLoop_ok", "loop lemma (arbitrary body): for i in range(a, b): temp[i] = af[i] inside both lists copies exactly the items a <= i < b"),
+    ("TracklibVerif.Tie.C15Filter", "TV.Tie.C15Filter.copyLoop_index", "loop lemma (arbitrary body): the same loop with a <= len(af) < b raises IndexError (at i = len(af))"),
+]
